@@ -49,6 +49,8 @@ fn main() {
         let mut d = D::new(&bytes);
         match kind.as_str() {
             "main" => vmodel::gen::gen_batch(&mut d, &vmodel::gen::BatchCfg { n, max_depth: 2 }),
+            "magic" => vmodel::gen_elem::gen_magic_batch(&mut d),
+            "sugg" => vmodel::gen_sugg::gen_sugg_batch(&mut d, n / 5),
             other => panic!("unknown kind {}", other),
         }
     };
